@@ -149,3 +149,29 @@ pub proof fn lemma_names()
     assert(str_bytes("GET") =~= b_get());
     assert(str_bytes("SET") =~= b_set());
 }
+
+// ---- the client side: what `From<Get/Set/Del> for Frame` builds is the request frame of the theorem
+/// the request a client sends for a command
+pub open spec fn req_frame(c: SCmd) -> SFrame {
+    match c {
+        SCmd::Get(k) => SFrame::Array(seq![SFrame::Bulk(b_get()), SFrame::Bulk(k)]),
+        SCmd::Set(k, v) => SFrame::Array(seq![SFrame::Bulk(b_set()), SFrame::Bulk(k), SFrame::Bulk(v)]),
+        SCmd::Del(ks) => SFrame::Array(seq![SFrame::Bulk(b_del())] + Seq::new(ks.len(), |i: int| SFrame::Bulk(ks[i]))),
+    }
+}
+impl vstd::std_specs::convert::FromSpecImpl<Get> for Frame {
+    open spec fn obeys_from_spec() -> bool { false }
+    open spec fn from_spec(v: Get) -> Frame { arbitrary() }
+}
+impl vstd::std_specs::convert::FromSpecImpl<Set> for Frame {
+    open spec fn obeys_from_spec() -> bool { false }
+    open spec fn from_spec(v: Set) -> Frame { arbitrary() }
+}
+impl vstd::std_specs::convert::FromSpecImpl<Del> for Frame {
+    open spec fn obeys_from_spec() -> bool { false }
+    open spec fn from_spec(v: Del) -> Frame { arbitrary() }
+}
+/// the byte strings "GET" / "SET" / "DEL".into() produce
+pub proof fn lemma_names_bytes()
+    ensures str_bytes("DEL") == b_del(), str_bytes("GET") == b_get(), str_bytes("SET") == b_set()
+{ lemma_names(); }
